@@ -189,7 +189,9 @@ pub fn run(ctx: &Ctx, rep: &mut Report) {
     rep.trusted_base = vec!["tokio paused clock (virtual time); trace-validity predicate written from the property statement".into()];
     rep.assumptions = vec!["'must start' is not asserted (the property bounds the number of executions from above only)".into()];
     if let Some((check, case_v)) = &ctx.replay {
-        replay_case::<Case, _>(rep, check, case_v, oracle);
+        if !super::c13_e2e::replay(rep, check, case_v) {
+            replay_case::<Case, _>(rep, check, case_v, oracle);
+        }
         return;
     }
     {
@@ -220,4 +222,5 @@ pub fn run(ctx: &Ctx, rep: &mut Report) {
         finish_direct(rep, "grid_exhaustive", st, fails, true);
     }
     run_prop_par(rep, "virtual_time", ctx.tier.pick(60_000, 3_000_000), ncpu(), case, oracle);
+    super::c13_e2e::run(ctx, rep);
 }
